@@ -144,6 +144,27 @@ def check_cli(case):
             out.fail('info -c raised %s' % o.exc_type, error=o.msg)
         elif so.strip().splitlines()[-1:] != ['%s: %d' % (path, len(msgs))]:
             out.fail('info -c reports a wrong number of messages', got=so.strip()[-80:], expected=len(msgs))
+        # several files in one invocation, some of them without any message (empty, separators only, the stream cut inside
+        # its first start signature), listed before, between and after the others: one count per file
+        files = [('stream.bufr', case.stream, len(msgs)), ('empty.bufr', b'', 0),
+                 ('noise.bufr', (b'\r\n'.join(case.seps) + b'BUF\r\r\n7777').replace(b'BUFR', b'BUFX'), 0), ('one.bufr', (msgs[0] if msgs else b'') + b'BUF', 1 if msgs else 0),
+                 ('cut.bufr', case.stream[:max(0, case.spans[0][0] + 3)] if msgs else b'BU', 0)]
+        k = int(case.key()[:4], 16)
+        order = [files[(k + j * (1 + k % 4)) % 5] for j in range(5)] + [files[k % 5]]
+        paths = []
+        for j, (name, data, n) in enumerate(order):
+            pth = os.path.join(d, '%d-%s' % (j, name))
+            with open(pth, 'wb') as f:
+                f.write(data)
+            paths.append((pth, n))
+        o, so, se = cli.run_main(['info', '-c'] + [pth for pth, _ in paths])
+        want = ['%s: %d' % (pth, n) for pth, n in paths]
+        if not o.ok:
+            out.fail('info -c over several files raised %s' % o.exc_type, error=o.msg)
+        elif [ln for ln in so.splitlines() if ln.strip()] != want:
+            out.fail('info -c over several files: the counts are not those of the files', got=[ln.rsplit('/', 1)[-1] for ln in so.splitlines() if ln.strip()],
+                     expected=[w.rsplit('/', 1)[-1] for w in want])
+        out.classes.append('cli_count_over_several_files')
     return out
 
 
